@@ -840,7 +840,9 @@ def libBody : Nat → Dec → Lib → List Tok → Option Lib
         if k == "Macro" then (macro_ ver ts).bind fun (m, r) => if r.length < ts.length then libBody f ver { lib with macros := lib.macros ++ [m] } r else none
         else if k == "Version" then
           (number r0).bind fun (d, r) => (semi r).bind fun (_, r) =>
-            if versionOk d then libBody f d { lib with version := some d } r else none
+            -- a VERSION > 5.4 after statements valid only up to 5.4 is refused (session flag `has_pre_5p5_content`)
+            if versionOk d && !(v5p4.lt d && (lib.namesCaseSensitive.isSome || lib.macros.any (·.source.isSome)))
+            then libBody f d { lib with version := some d } r else none
         else if k == "BusBitChars" then
           (expectTT .string r0).bind fun (s, r) =>
             match s with
